@@ -8,6 +8,10 @@ package main
 //   c08 orig x<envelope text>               -> one observation (always with detail)
 //   c08 sweep x<original text> ( x<edited text> ... ) <detail 0|1>
 //                                           -> ( <observation of the original> ) ( <observation> ... )
+//   c08 hashed x<envelope text>             -> ok x<json.Marshal(parsed doc)> x<canonical JSON of it> x<Envelope.Digest().Value> xalg
+//                                              the bytes the implementation's own Envelope.Digest hashes (json.Marshal of the
+//                                              document, then c14n.CanonicalJSON) next to the digest it answers for them;
+//                                              compared with Digest/Link.real_canon (wire op `c08 realcanon`) by the check
 //
 // observation = ( xparse xvalidate <structural> <same-as-original> xcalc ( xalg xval ) <same-after-calc>
 //                 ( xheadalg xheadval ) xsha(canon parsed doc) xsha(canon calculated doc)
@@ -149,9 +153,28 @@ func c08observe(text []byte, origCanon []byte) *c08obs {
 	return o
 }
 
+// c08Hashed: the parsed envelope's own Digest() and, step by step, the bytes it is computed over.
+func c08Hashed(text []byte) []V {
+	env, kind := c08Parse(text)
+	if kind != "ok" || env == nil {
+		return []V{VErr("parse")}
+	}
+	d, err := env.Digest()
+	if err != nil || d == nil {
+		return []V{VErr("digest")}
+	}
+	raw, canon, err := canonDoc(env)
+	if err != nil {
+		return []V{VErr("canon")}
+	}
+	return []V{VS("ok"), VBytes(raw), VBytes(canon), VS(d.Value), VS(string(d.Algorithm))}
+}
+
 func init() {
 	register("c08", func(a []V) []V {
 		switch a[0].Str() {
+		case "hashed":
+			return c08Hashed(a[1].S)
 		case "envelop":
 			obj, err := gobl.Parse(a[1].S)
 			if err != nil {
